@@ -58,3 +58,13 @@ VARIANTS = [
         "    if len(estimated_objects_) > 0 and evaluation_task.is_fp_validation() is False:\n        object_results += _get_fp_object_results(estimated_objects_)",
         "    keep_leftovers = evaluation_task.is_fp_validation() is False\n    if len(estimated_objects_) > 0 and keep_leftovers:\n        object_results += _get_fp_object_results(estimated_objects_)")]),
 ]
+
+# seeded (round 2)
+VARIANTS += [
+    dict(name="seed2-all-nan-early-return-ignores-fp-validation", kind="break", rule="C01-emptiness", edits=[("evaluation/result/object_result.py",
+        "    scores = score_table[..., 0]\n    is_valid = score_table[..., 1]\n",
+        "    scores = score_table[..., 0]\n    if np.isnan(scores).all():\n        return _get_fp_object_results(estimated_objects)\n    is_valid = score_table[..., 1]\n")]),
+    dict(name="all-nan-early-return-guarded", kind="benign", edits=[("evaluation/result/object_result.py",
+        "    scores = score_table[..., 0]\n    is_valid = score_table[..., 1]\n",
+        "    scores = score_table[..., 0]\n    if np.isnan(scores).all() and not evaluation_task.is_fp_validation():\n        return _get_fp_object_results(estimated_objects)\n    is_valid = score_table[..., 1]\n")]),
+]
